@@ -56,3 +56,19 @@ Print Assumptions C05_called_helpers_are_declared.
 
 Example C05_tables_nonempty : Nat.ltb 30 (List.length c_helpers_deps) && Nat.ltb 100 (List.length template_blocks) = true.
 Proof. vm_compute. reflexivity. Qed.
+
+(* a helper entry uses only the keys the gathering code reads: a misspelt key (and with it a lost dependency, include
+   or prototype) is silently ignored by Python, so it is checked here *)
+Definition known_helper_keys : list string :=
+  ["c_include"; "c_source"; "cxx_include"; "cxx_proto"; "cxx_source"; "dependent_helpers"; "derived_type"; "include"; "interface";
+   "modules"; "name"; "need_numpy"; "proto"; "scope"; "source"].
+Theorem C05_helper_entries_use_known_keys :
+  forallb (fun r => forallb (fun k => existsb (String.eqb k) known_helper_keys) (snd r)) helper_keys = true.
+Proof. vm_compute. reflexivity. Qed.
+Print Assumptions C05_helper_entries_use_known_keys.
+
+(* every other helper a C helper's code calls is one of its declared dependencies (so that it is emitted, and before it) *)
+Theorem C05_helper_code_calls_only_its_dependencies :
+  forallb (fun r => match r with (_, called, deps) => forallb (fun c => existsb (String.eqb c) deps) called end) helper_calls = true.
+Proof. vm_compute. reflexivity. Qed.
+Print Assumptions C05_helper_code_calls_only_its_dependencies.
